@@ -29,6 +29,8 @@ const (
 	classStaleEntry = "C08-lib-from-stale-entry-of-abandoned-branch"
 )
 
+var classSeen = map[string]int{}
+
 var arrNames = []string{"known", "orphan", "rejected-le-lib", "main", "side", "reorg", "reorg-vetoed"}
 
 func (n *node) fail(what, class string) {
@@ -39,6 +41,13 @@ func (n *node) fail(what, class string) {
 		class = n.taint // a consequence of an already reported, tagged failure on this node
 	}
 	n.w.run.Count("fail-class=" + class)
+	if class != "" {
+		// the run keeps a bounded list of failures: at most two per known class, so that an untagged one is never crowded out
+		classSeen[class]++
+		if classSeen[class] > 2 {
+			return
+		}
+	}
 	if class == "" && os.Getenv("C08_DEBUG") != "" {
 		fmt.Fprintln(os.Stderr, "UNTAGGED:", n.selfName(), what)
 		if os.Getenv("C08_DEBUG") == "2" {
